@@ -54,11 +54,12 @@ def _strset(xs) -> Raw:
     return Raw("{" + ", ".join(f'"{x}"' for x in xs) + "}")
 
 
-def _consts(nt, nn, caps, ttls, mc, mo, modes=("lock",), sym=False) -> dict:
+def _consts(nt, nn, caps, ttls, mc, mo, modes=("lock",), sym=False, canon=False) -> dict:
     th = [f"t{i + 1}" for i in range(nt)]
-    no = list("abc"[:nn])
+    no = list("abcd"[:nn])
     return {"Threads": ModelValues(*th) if sym else _strset(th), "Nonces": ModelValues(*no) if sym else _strset(no),
-            "Caps": set(caps), "Ttls": set(ttls), "Modes": _strset(modes), "MaxClock": mc, "MaxOps": mo}
+            "Caps": set(caps), "Ttls": set(ttls), "Modes": _strset(modes), "MaxClock": mc, "MaxOps": mo,
+            "Canon": canon}
 
 
 # ---------------------------------------------------------------------------------------------- real world
@@ -209,6 +210,14 @@ def replay_path(cap: int, ttl: int, threads: list[str], beh: list[dict]):
                 w.tick()
                 continue
             t = args[0]
+            if drift is not None:
+                # the real object left the model earlier: keep following the *schedule* (best effort, nothing is
+                # compared any more) so that the whole history is still executed and judged by TLC
+                if act == "ReadClock":
+                    w.prog[t].append(args[1])
+                if t not in w.sched.done and w.sched.enabled(t):
+                    w.step(t)
+                continue
             if act == "ReadClock":
                 w.prog[t].append(args[1])
                 lab = w.step(t)
@@ -217,7 +226,6 @@ def replay_path(cap: int, ttl: int, threads: list[str], beh: list[dict]):
                 if lab != exp or got_now != s["now"][t]:
                     drift = {"step": n, "action": f"{act}({t},{args[1]})", "label": lab, "expected_label": exp,
                              "now": got_now, "expected_now": s["now"][t]}
-                    break
             elif act == "Locked":
                 lab = w.step(t)
                 done = next((e for e in reversed(w.events) if e["e"] == "Done" and e["t"] == t), None)
@@ -229,7 +237,6 @@ def replay_path(cap: int, ttl: int, threads: list[str], beh: list[dict]):
                     drift = {"step": n, "action": f"{act}({t})", "label": lab, "expected_label": "next",
                              "result": real_res, "expected_result": s["last"][t], "entries": ent,
                              "expected_entries": want_ent}
-                    break
             else:
                 raise MachineryError(f"unexpected action {act} in lock-grain graph")
         ok = w.finish()
@@ -328,8 +335,8 @@ def run_real_schedule(scn: dict, prefix: list[str]):
 
 
 # ---------------------------------------------------------------------------------------------- driver
-JUDGE_CONSTS = {"Threads": _strset(["t0", "t1", "t2", "t3"]), "Nonces": _strset("abc"), "Caps": {1, 2, 3, 4},
-                "Ttls": {1, 2, 3}, "Modes": _strset(["lock"]), "MaxClock": 99, "MaxOps": 99}
+JUDGE_CONSTS = {"Threads": _strset(["t0", "t1", "t2", "t3"]), "Nonces": _strset("abcd"), "Caps": {1, 2, 3, 4},
+                "Ttls": {1, 2, 3}, "Modes": _strset(["lock"]), "MaxClock": 99, "MaxOps": 99, "Canon": False}
 
 
 def replay_schedule(cap: int, ttl: int, nthreads: int, executed: list[str], trace_ev: list[dict]) -> list[dict]:
@@ -385,7 +392,8 @@ def run(ctx: Ctx) -> None:
                "'distinct nonces arrived in the window' = distinct nonces other than x with a presentation "
                "overlapping the interval from x's acceptance to the replay's return",
                "a presentation is inside the window when it returns while the global clock < accNow + ttl",
-               "bounds: 2-3 threads, <=2 presentations per thread, alphabet 3, capacity 1..4, <=3 ticks")
+               "bounds: 2-3 threads, <=2 presentations per thread, alphabet 3, capacity 1..4, <=3 ticks; sequential "
+               "family: 1 thread, <=7-8 presentations, alphabet 4 (up to renaming), capacity up to 4, clock crossing the ttl")
     T = {}
     t0 = time.time()
 
@@ -396,16 +404,23 @@ def run(ctx: Ctx) -> None:
         mcs.append(("mc-2thr-2ops-caps1-4", _consts(2, 3, (1, 2, 3, 4), (2,), 3, 2, sym=True), False))
         mcs.append(("mc-3thr-1op-caps1-4", _consts(3, 3, (1, 2, 3, 4), (1, 2), 2, 1, sym=True), False))
         mcs.append(("mc-fine+nolock", _consts(2, 2, (1, 2), (2,), 2, 1, modes=("fine", "nolock"), sym=True), True))
-        # (nthreads, nnonces, caps, ttls, maxclock, maxops, mode)   mode: "all" | "cover"
-        dumps = [(2, 2, (1, 2), (2,), 2, 1, "all"), (2, 2, (1, 2), (1,), 2, 2, "cover"), (3, 2, (1,), (2,), 2, 1, "cover")]
+        mcs.append(("mc-sequential-7ops-4nonces", _consts(1, 4, (1, 2, 3, 4), (1, 2), 2, 7, sym=True), False))
+        # (nthreads, nnonces, caps, ttls, maxclock, maxops, mode[, "seq"])   mode: "all" | "cover" | "random"
+        # "seq" = the long sequential family: one thread, 4 nonces, histories up to renaming of nonces (Canon),
+        # clock advances only between presentations (TickWhenIdle)
+        dumps = [(2, 2, (1, 2), (2,), 2, 1, "all"), (2, 2, (1, 2), (1,), 2, 2, "cover"), (3, 2, (1,), (2,), 2, 1, "cover"),
+                 (1, 4, (3,), (1,), 1, 6, "all", "seq")]
         n_random = 60
     else:
         mcs.append(("mc-2thr-2ops-caps1-4-ttl1-3", _consts(2, 3, (1, 2, 3, 4), (1, 2, 3), 3, 2, sym=True), False))
         mcs.append(("mc-3thr-2ops-caps1-3", _consts(3, 3, (1, 2, 3), (2,), 3, 2, sym=True), False))
         mcs.append(("mc-fine+nolock-2thr", _consts(2, 3, (1, 2), (2,), 3, 2, modes=("fine", "nolock"), sym=True), True))
         mcs.append(("mc-fine-3thr", _consts(3, 2, (1, 2), (2,), 2, 1, modes=("fine",), sym=True), False))
+        mcs.append(("mc-sequential-8ops-4nonces", _consts(1, 4, (1, 2, 3, 4), (1, 2), 3, 8, sym=True), False))
         dumps = [(2, 2, (1, 2), (2,), 2, 1, "all"), (3, 1, (1,), (1,), 1, 1, "all"), (3, 1, (1,), (2,), 2, 1, "all"),
                  (2, 1, (1,), (1,), 2, 2, "all"),
+                 (1, 4, (3,), (1,), 2, 6, "all", "seq"), (1, 4, (3, 4), (1,), 1, 7, "all", "seq"),
+                 (1, 4, (2, 3, 4), (1, 2), 3, 7, "cover", "seq"),
                  (2, 2, (1, 2, 3), (1, 2), 2, 2, "cover"), (3, 2, (1, 2), (2,), 2, 1, "cover"),
                  (2, 3, (1, 2, 3, 4), (2,), 2, 2, "random")]
         n_random = 400
@@ -416,8 +431,11 @@ def run(ctx: Ctx) -> None:
                                coverage="3thr-2ops" not in name)
 
     def dump_job(k, d):
-        nt, nn, caps, ttls, mc_, mo, _ = d
-        cfg = render_cfg(constants=_consts(nt, nn, caps, ttls, mc_, mo), invariants=[f"Inv_{c}" for c in CLAUSES])
+        nt, nn, caps, ttls, mc_, mo = d[:6]
+        seq = len(d) > 7
+        cfg = render_cfg(constants=_consts(nt, nn, caps, ttls, mc_, mo, canon=seq),
+                         invariants=[f"Inv_{c}" for c in CLAUSES],
+                         action_constraint=["TickWhenIdle"] if seq else [])
         return lambda: dump_graph(wd, "NonceCache", cfg, workers=W, name=f"g{k}", timeout=2400)
 
     jobs = [mc_job(n, c) for n, c, _ in mcs] + [dump_job(k, d) for k, d in enumerate(dumps)]
@@ -442,11 +460,16 @@ def run(ctx: Ctx) -> None:
     complete_all = True
     path_stats = []
     for d, (r, g) in zip(dumps, graphs):
-        nt, nn, caps, ttls, mc_, mo, mode = d
+        nt, nn, caps, ttls, mc_, mo, mode = d[:7]
+        for u in g.out:                      # TLC dumps an edge once per sub-action that generates it
+            g.out[u] = list(dict.fromkeys(g.out[u]))
         ctx.add_tlc(f"graph-{nt}thr-{nn}n-caps{list(caps)}-ttls{list(ttls)}-clk{mc_}-ops{mo}", r)
         require_ok(r, "NonceCache graph dump")
         if mode == "all":
             paths, comp = g.all_paths(max_len=64, limit=120000)
+            if len(d) > 7:
+                ctx.extra.setdefault("sequential_histories", []).append(
+                    {"caps": list(caps), "ttls": list(ttls), "maxclock": mc_, "presentations": mo, "paths": len(paths)})
             complete_all = complete_all and comp
         elif mode == "cover":
             paths = g.edge_cover_paths(ctx.rng, key=_edge_key())
@@ -544,7 +567,7 @@ def run(ctx: Ctx) -> None:
     # schedule of the Level-B scenarios (under their preemption bound) was executed; the "cover"/"random" graphs
     # are sampled (edge-class cover + random walks)
     ctx.exhaustive = complete_all and b_complete
-    ctx.extra["sampled_graphs"] = [f"{d[0]}thr-{d[1]}n-caps{list(d[2])}" for d in dumps if d[6] != "all"]
+    ctx.extra["sampled_graphs"] = [f"{d[0]}thr-{d[1]}n-caps{list(d[2])}-ops{d[5]}" for d in dumps if d[6] != "all"]
     T["level_B_dfs"] = round(time.time() - t2, 1)
 
     # ---------------- 4. TLC judges every recorded trace (identical traces are judged once)
